@@ -14,6 +14,7 @@ package main
 import (
 	"fmt"
 	"go/token"
+	"strings"
 
 	"golang.org/x/tools/go/ssa"
 )
@@ -130,6 +131,26 @@ func checkBigZone(p *Program, r *Report, rule string) {
 		}
 		return false
 	}
+	// the per-node lists the Inners bitmap is assembled from: the two arguments of bitmap.OfMany
+	// (today creator.innerBMs and creator.innerSizes)
+	lists := map[string]bool{}
+	for _, f := range p.FuncsOf(triePath) {
+		for _, c := range callsIn(f) {
+			if g := calleeOf(c); g != nil && strings.HasSuffix(funcID(g), "/bitmap.OfMany") {
+				for _, a := range c.Common().Args {
+					if ld, ok := deref(a); ok {
+						if _, fv, fa := fieldOfAddr(ld); fa != nil {
+							lists[fv.Name()] = true
+						}
+					}
+				}
+			}
+		}
+	}
+	if len(lists) == 0 {
+		r.Unk("per-node bitmap/size lists", "", "no call of bitmap.OfMany on builder fields found (anchor not found)")
+		return
+	}
 	listFields := map[string]bool{}
 	n := 0
 	for _, f := range p.FuncsOf(triePath) {
@@ -150,18 +171,15 @@ func checkBigZone(p *Program, r *Report, rule string) {
 				return
 			}
 			_, fv, fa := fieldOfAddr(ld)
-			if fa == nil || (fv.Name() != "innerSizes" && fv.Name() != "innerBMs") {
-				return
-			}
-			if nm := namedOf(fa.X.Type()); nm == nil || nm.Obj().Name() != "creator" {
+			if fa == nil || !lists[fv.Name()] {
 				return
 			}
 			listFields[fv.Name()] = true
 			n++
 			r.Func(shortFn(f))
-			construct := fmt.Sprintf("in-place rewrite of creator.%s in %s", fv.Name(), shortFn(f))
-			r.Check(geBig(ia.Index, b, 0), construct, p.Pos(st.Pos()), "index >= creator."+bigField+" (the counter published as BigInnerCnt) by loop start or dominating comparison",
-				"the rewritten ordinal is not bounded below by creator."+bigField+": one of the leading 257-bit nodes can be re-encoded as a short/17-bit node while every reader still decodes the first BigInnerCnt nodes as 257-bit — all later node offsets shift")
+			construct := fmt.Sprintf("in-place rewrite of the builder's %s in %s", fv.Name(), shortFn(f))
+			r.Check(geBig(ia.Index, b, 0), construct, p.Pos(st.Pos()), "index >= builder."+bigField+" (the counter published as BigInnerCnt) by loop start or dominating comparison",
+				"the rewritten ordinal is not bounded below by builder."+bigField+": one of the leading 257-bit nodes can be re-encoded as a short/17-bit node while every reader still decodes the first BigInnerCnt nodes as 257-bit — all later node offsets shift")
 		})
 	}
 	if n == 0 {
